@@ -68,7 +68,7 @@ PLACERS = ["sequential", "breadth_first", "hilbert", "rcm", "rand", "sa-py",
            "sa-c"]
 KF_CK32 = "c-kernel-quantities-beyond-32-bit"
 CLASSES = ["easy", "general", "tight", "infeasible", "groups", "tiny",
-           "deadloc", "sa_tight", "alldead"]
+           "deadloc", "sa_tight", "alldead", "huge_tight"]
 
 _asan = {}
 
@@ -102,6 +102,30 @@ def gen(cls, idx, rng, tier):
     easy = cls == "easy"
     if cls == "sa_tight":
         return gen_sa_tight(rng, idx)
+    if cls == "huge_tight":
+        # quantities that differ only far below the precision of a double:
+        # three "big" vertices fit a chip only if their small parts do
+        B = rng.choice([1 << 55, 10 ** 16, (1 << 60) + 5])
+        w, h = rng.choice([(2, 1), (2, 2), (3, 2)])
+        m = dict(w=w, h=h, res={"Cores": 18, "SDRAM": 3 * B + 3}, exc={},
+                 dead_chips=[], dead_links=[])
+        vs = []
+        for i in range(rng.randint(2 * w * h, 3 * w * h)):
+            vs.append((i, {"Cores": 1, "SDRAM": B + rng.choice([1, 1, 2])}))
+        for j in range(rng.randint(2, 8)):
+            vs.append(("light%d" % j, {"Cores": 1}))    # says nothing of SDRAM
+        names_ = [v for v, _ in vs]
+        nets_ = [(rng.choice(names_), [rng.choice(names_)
+                                       for _ in range(rng.randint(1, 4))], 1.0)
+                 for _ in range(rng.randint(3, 10))]
+        placer = PLACERS[idx % len(PLACERS)]
+        if placer == "sa-c":
+            placer = "sa-py"        # beyond the C kernel's 32 bits (D18)
+        kw = dict(effort=rng.choice([0.01, 0.1]), seed=rng.randrange(1 << 30),
+                  stop_after=None) if placer.startswith("sa-") else \
+            dict(seed=rng.randrange(1 << 30)) if placer == "rand" else {}
+        return dict(machine=m, vertices=vs, nets=nets_, constraints=[],
+                    placer=placer, kw=kw, easy=False)
     if cls == "alldead":
         m = par.gen_machine(rng, max_w=3, max_h=3, p_dead=0)
         m["dead_chips"] = [(x, y) for x in range(m["w"])
@@ -132,7 +156,8 @@ def gen(cls, idx, rng, tier):
     nv = rng.randint(0, 14)
     vertices = []
     for i in range(nv):
-        v = i if rng.random() < .85 else "v%d" % i
+        v = i if rng.random() < .8 else rng.choice(
+            ["v%d" % i, ("pop", i), (i,)])
         if easy:
             r = {"Cores": rng.choice([0, 1, 1])} if rng.random() < .9 else {}
         elif cls == "tight":
